@@ -78,9 +78,11 @@ PROPS['C13'] = dict(
 
 for _p in ('C02', 'C03'):
     PROPS[_p] = dict(
-        level='exploration', builds={'vnat': dict(pkg='./cmd/vnat', overlay='shim')},
-        stages=[dict(name='natmodel', bin='vnat', args=['-prop', _p], shards=shards(4, 72), par=12, crash_is_violation=True, crash_key='nat:crash')],
-        need_counters=['outbound', 'inbound', 'mapping_reused', 'mapping_expired_then_recreated', 'inbound_admitted', 'inbound_must_refuse_no-permission', 'inbound_must_refuse_expired', 'exhaustion_histories', '1to1_in', '1to1_out'],
+        level='exploration', builds={'vnat': dict(pkg='./cmd/vnat', overlay='shim'), 'vnat_race': dict(pkg='./cmd/vnat', overlay='shim', race=True)},
+        stages=[dict(name='natmodel', bin='vnat', args=['-prop', _p], shards=shards(4, 72), par=12, crash_is_violation=True, crash_key='nat:crash'),
+                dict(name='natconc', bin='vnat_race', args=['-prop', _p, '-mode', 'conc'], shards=shards(4, 12), par=12, crash_is_violation=True, crash_key='nat:crash', group='g2')],
+        replay_stage='natmodel',
+        need_counters=['outbound', 'inbound', 'mapping_reused', 'mapping_expired_then_recreated', 'inbound_admitted', 'inbound_must_refuse_no-permission', 'inbound_must_refuse_expired', 'exhaustion_histories', '1to1_in', '1to1_out', 'conc_phases', 'conc_audits'],
     )
 
 PROPS['C09'] = dict(
